@@ -41,6 +41,9 @@ def popLast {α} : List α → Except Err (α × List α)
   | [x] => .ok (x, [])
   | x :: y :: r => (popLast (y :: r)).map fun p => (p.1, x :: p.2)
 
+/-- `s.add(x)` on a Python set kept as a list without repetitions -/
+def setAdd (s : List Nat) (x : Nat) : List Nat := if x ∈ s then s else s ++ [x]
+
 /-- a user hook (`_initialize`, `_update`, …): leaves the component's status alone (`none`) or sets it (`some s`) -/
 def hook (o : Option Int) (st : Int) : Except Err Int := pure (o.getD st)
 
